@@ -2,12 +2,15 @@
 PROP = dict(
         pkg="c11", level="exploration",
         technique=("grammar-based PBT (rapid) + native Go fuzzing of jsonrpc.Server against an independent reference model of "
-                   "JSON-RPC 2.0 dispatch; multiset matching of responses and of recorded handler invocations"),
+                   "JSON-RPC 2.0 dispatch; multiset matching of responses and of recorded handler invocations; metamorphic: a segmented "
+                   "delivery of the same bytes must be answered like the one-piece delivery"),
         level_text=("Exploration: generated request documents (tens of thousands per quick run, about a million plus byte-level fuzzing "
-                    "in the thorough tier) through HandleReader, HandleReadWriter and the HTTP transport; every output is checked against "
+                    "in the thorough tier) through HandleReader, HandleReadWriter and the HTTP transport, in one piece and split into drawn read "
+                    "segments (requests up to ~16 KB and more); every output is checked against "
                     "the response grammar and against the outcomes a reference model allows; batches also under -race with pool sizes 1 and 8. "
                     "Samples the input space, does not prove absence. The native fuzzer runs without coverage guidance (the driver builds "
-                    "the test binary without -fuzz instrumentation), i.e. as a mutation fuzzer over a 188-entry seed corpus (incl. 68 requests to context-taking matrix methods with the optional tail left out)."),
+                    "the test binary without -fuzz instrumentation), i.e. as a mutation fuzzer over a 230-entry seed corpus (incl. 68 requests to context-taking matrix methods with the optional tail left out "
+                    "and 42 large requests with the sizes of their first three read segments, which are part of the fuzzed input)."),
         rule=("rapid grammar: each envelope member valid/missing/ill-typed, 21 hand-written harness methods covering every handler shape the server "
               "accepts (no params, required only, optional tail, all optional, context first, validated struct / *struct / []struct / "
               "map[string]*struct / map[string]struct, optional by-value validated struct, struct with a 'required' tag, a value type whose "
@@ -28,8 +31,21 @@ PROP = dict(
               "Params good/omitted/too few/too many/unknown name/missing required/ill-typed/validator failure/"
               "scalar/null, an explicit null for any one parameter (every parameter kind), by position (any prefix down to the required ones) or by name (any subset of the optional ones), ids of every JSON type, batches of 0-30 (race: 1-40, up to 4 concurrent) entries, "
               "nested arrays, duplicate/extra members, leading whitespace up to 5000 bytes, trailing bytes, byte-level damage. "
+              "DELIVERY is part of the input (TestPropDelivery, 4000 cases per shard; also the three segment sizes of the fuzz target): the "
+              "request bytes are served by a reader that returns exactly one drawn segment per Read - segment sizes from {1 (runs up to 300), "
+              "2-16, 17-99, 100-600, 511/512/513, 1023/1024/1025, 127/128/129, 1320-1500 (MTU-like), 601-4096, rest} or a stream of equal "
+              "segments, always >= 1 split, EOF returned with the last bytes or on its own - as the io.Reader of HandleReader, of "
+              "HandleReadWriter or as the HTTP request body (plain / gzip); 3 of 4 of those requests are LARGE (size bucket 300-700 / "
+              "700-2000 / 2000-4500 / 4500-9000 / 9000-16000 bytes before whitespace styling): one call whose argument is a long "
+              "position-dependent string (a counter every 5-6 bytes), an array of hundreds of ints / strings / small structs, a map of hundreds "
+              "of entries or raw JSON of hundreds of small objects (hand-written shapes and signature matrix, by position or by name), a batch "
+              "of up to 400 position-dependent entries, or a big call inside a small batch; 1 in 8 damaged at a uniform offset. Oracle there = "
+              "reference model on both deliveries + equality of (shape, multiset of (id, result | error code), multiset of handler invocations "
+              "with arguments) between the segmented and the one-piece delivery. Labels 'delivery:*' count the reads the server was actually "
+              "served (e.g. 'delivery:read>=512-followed-by-read<512,before-the-value-is-complete', about 26% of the TestPropDelivery cases), "
+              "'request-bytes:>640' (63%), '>2048' (37%), '>8192' (12%). "
               "Non-trivial = the input is valid JSON containing >= 1 well-formed request object (dispatcher reached); mixed-batch = "
-              ">= 3 entries of >= 2 classes; distinct = SHA-256 of transport + input bytes."),
+              ">= 3 entries of >= 2 classes; distinct = SHA-256 of transport + input bytes (+ segment list)."),
         assumptions=["encoding/json's syntax check decides what 'unparsable JSON' means (first value of the stream)",
                      "tolerances: explicit id null = notification or answered with id null; -32700 or -32600 for a single document that is "
                      "valid JSON but fails typed decoding (ill-typed envelope member, or not an object at all - pinned by "
@@ -42,7 +58,10 @@ PROP = dict(
                      "an explicit null argument is what the caller supplied and is decoded by encoding/json's documented rules: nil for "
                      "pointer/slice/map/RawMessage, the zero value for plain value types (handler invoked), -32602 when the type's "
                      "UnmarshalJSON refuses null or when the resulting zero struct violates its validator tags",
-                     "error messages and error.data of server-generated errors are not compared"],
+                     "error messages and error.data of server-generated errors are not compared (a parse error's excerpt legitimately depends on "
+                     "how far the reader had got when the error was found, i.e. on the delivery)",
+                     "deliveries are deterministic reader-level segmentations (one segment per Read, never a zero-length Read); the HTTP body is a "
+                     "chunking body handed to ServeHTTP, not a kernel socket"],
         runs=[dict(run="^Test(Prop|Known)"), dict(run="^TestRace", race=True),
               dict(run="^$", fuzz="FuzzHandleReader", fuzztime="120s")],
     )
